@@ -2350,9 +2350,10 @@ impl LineBuf {
 			LineAddr::Current => Some(self.cursor_line_number()),
 			LineAddr::Last => Some(self.line_count() - 1),
 			LineAddr::Offset(offset) => {
-				// An offset that leads before the first line is an invalid address
+				// Line numbers are one-indexed in ex: line 0 is still an address (read as line 1), anything before it is not
 				let current = self.cursor_line_number();
-				current.checked_add_signed(offset)
+				let target = (current + 1).checked_add_signed(offset)?;
+				Some(target.saturating_sub(1))
 			}
 			LineAddr::PatternRev(ref pat) |
 			LineAddr::Pattern(ref pat) => {
@@ -3344,6 +3345,12 @@ impl LineBuf {
 			Verb::Delete |
 			Verb::Yank |
 			Verb::Change => {
+				if let MotionKind::Line(last) | MotionKind::LineRange(_,last) = &motion {
+					if *last >= self.line_count() {
+						// An ex range that reaches past the last line is invalid: text and register stay as they are
+						return Ok(())
+					}
+				}
 				let content = self.get_register_content(&verb, &motion);
 				register.write_to_register(content);
 				if let Some(SelectRange::TwoDim(sel)) = self.select_range.as_ref() {
@@ -3899,6 +3906,8 @@ impl LineBuf {
 				let (start_line,end_line) = match motion {
 					MotionKind::Line(n) => (n,n),
 					MotionKind::LineRange(s,e) => (s,e),
+					// An address that could not be evaluated
+					MotionKind::Null => return Ok(()),
 					_ => (0,last_line),
 				};
 				if end_line > last_line {
@@ -3919,6 +3928,8 @@ impl LineBuf {
 				let (start_line,end_line) = match motion {
 					MotionKind::Line(n) => (n,n),
 					MotionKind::LineRange(s,e) => (s,e),
+					// An address that could not be evaluated
+					MotionKind::Null => return Ok(()),
 					_ => (0,last_line),
 				};
 				if end_line > last_line {
